@@ -325,6 +325,10 @@ pub fn execute(case: &Case) -> Outcome {
         }
     }
     SimNet::unregister_global(port);
+    // panics on the threads runtime_builder started (they end a connection task or a listener)
+    for pmsg in crate::stack::take_foreign_panics() {
+        viols.push(Violation::new("C20", "panic-under-this-configuration", format!("{} runtime, {} thread(s): a server thread panicked: {}", runtime, threads, pmsg)));
+    }
     out.fp = fp.0;
     out.stats.requests = 6 + limit as u64 + 1;
     out.absorb(viols, &|v| v.prop == "C20");
